@@ -48,7 +48,11 @@ def run_case(cs, ctx):
     ctx.cov('maxrank_%s_students' % ('lt' if R < ns else 'eq' if R == ns else 'gt'))
     try:
         s = Solver(argv)
-        s.solve()
+        if cs % 6 == 1:
+            s.solve(msg=True, threads=1)      # documented arguments of solve(); brute force takes no notice of them
+            ctx.cov('solve_called_with_msg_true')
+        else:
+            s.solve()
         out = s.get_results()
     except BaseException as e:
         ctx.finding(en.F('C07', 'never_fails', '-bf run raised %s: %s [%s]' % (type(e).__name__, e, en.exc_info(e)['where']),
